@@ -165,6 +165,25 @@ def install_traces():
         return r
     sz.SevenZipReader._decompress_folder = traced_dec
 
+    import zipfile as _zf
+    import tarfile as _tf
+    ozr = _zf.ZipFile.read
+
+    def traced_zip_read(self, name, *a, **k):
+        if REC["on"] and caller_mod().endswith("archive_extractor"):
+            idx = next((i for i, x in enumerate(self.filelist) if x is name), None)
+            TRACE.append(["read", "zip", idx if idx is not None else repr(name)])
+        return ozr(self, name, *a, **k)
+    _zf.ZipFile.read = traced_zip_read
+    oxf = _tf.TarFile.extractfile
+
+    def traced_extractfile(self, member):
+        if REC["on"] and caller_mod().endswith("archive_extractor"):
+            idx = next((i for i, x in enumerate(self.getmembers()) if x is member), None)
+            TRACE.append(["read", "tar", idx if idx is not None else repr(member)])
+        return oxf(self, member)
+    _tf.TarFile.extractfile = traced_extractfile
+
     oss = ax._should_skip_file
     ORIG['skip'] = oss
 
@@ -352,6 +371,19 @@ def main():
             gc.collect()
             REC["on"] = False
             res["before"] = before
+            # the member listing as the container library reports it (oracle of the loop model)
+            try:
+                if case["kind"] == "zip":
+                    import zipfile as _z
+                    with _z.ZipFile(io.BytesIO(data)) as zz:
+                        res["listing"] = [[i.filename, bool(i.is_dir()), bool(i.flag_bits & 1), 0, int(i.file_size)] for i in zz.infolist()]
+                elif case["kind"].startswith("tar"):
+                    import tarfile as _t
+                    with _t.open(fileobj=io.BytesIO(data), mode="r:*") as tt:
+                        res["listing"] = [[x.name, False, False, x.type[0] if isinstance(x.type, bytes) and x.type else 0, int(x.size)]
+                                          for x in tt.getmembers()]
+            except Exception:  # noqa
+                res["listing"] = None
             res["after"] = sorted(os.listdir(root))
             res["cwd_after"] = sorted(os.listdir(cwd))
             res["events"] = list(EVENTS)
